@@ -522,7 +522,11 @@ func runCases(p *Property, o Options, cases []Case) *Agg {
 			env = p.WorkerEnv(dir, 100)
 		}
 		to := time.Duration(len(retryFresh)/par+2)*caseTO + 60*time.Second
-		so := runWorker(p, dir, fmt.Sprintf("fresh%03d", len(retryFresh)), retryFresh, par, env, to)
+		fname := fmt.Sprintf("fresh%03d", len(retryFresh))
+		so := runWorker(p, dir, fname, retryFresh, par, env, to)
+		// the list of the cases still to run is rewritten for every fresh worker: with thousands of
+		// crashes (a changed tree that panics on every other case) these copies fill the disk
+		os.Remove(filepath.Join(dir, fname+".cases.json"))
 		var next []Case
 		progressed := false
 		for _, c := range retryFresh {
